@@ -117,8 +117,65 @@ Theorem C17_cache_invariant :
 Proof. exact (fun w scanned s => @GI_reachable src_cfg w eq_refl eq_refl scanned s). Qed.
 Print Assumptions C17_cache_invariant.
 
-(* ---------------------------------------------------------------------------------------------
-   NOT PROVED (checked by the direct oracle of harness/c17.py on every generated case):
-   - timeliness for a module whose pending glue is a BUILT-IN function (pendingB): same route, the
-     pend-table half of "settled" would have to be added to GI;
-   - C17_at_most_once for built-in functions (at most one EvCallB f / EvImm f event per f). *)
+(* TIMELINESS for a module whose pending glue is a BUILT-IN function f (the module object under n
+   offers no unconsumed glue of its own and builtin_glue_pending[n] = f): same hypotheses and
+   conclusion as C17_timely, all schedules. *)
+Theorem C17_timely_builtin :
+  forall w scanned ls1 ls2 t n f,
+    1 <= w_base w ->
+    let s1 := run src_cfg w ls1 (init w scanned) in
+    (thr s1 t = PIdle \/ exists b, thr s1 t = PDone b) ->
+    pendingB w s1 n f -> g_since_cache s1 = false -> g_since_snap s1 = false ->
+    let s2 := run src_cfg w ls2 s1 in
+    g_nrem s2 = g_nrem s1 ->
+    forall new, log s2 = new ++ log s1 -> In (EvRet t true) new -> calledB s2 f.
+Proof. exact (fun w scanned ls1 ls2 t n f => @timely_builtin w scanned ls1 ls2 t n f eq_refl eq_refl). Qed.
+Print Assumptions C17_timely_builtin.
+
+Example C17_timely_builtin_hypotheses_met :
+  let s1 := run src_cfg tb_world tb_hist (init tb_world true) in
+  thr s1 0 = PDone true /\ thr s1 1 = PLocked /\ thr s1 2 = PIdle
+  /\ pendingB tb_world s1 0 0 /\ g_since_cache s1 = false /\ g_since_snap s1 = false /\ g_late s1 = false.
+Proof. exact timely_builtin_hyp_met. Qed.
+
+(* per built-in function object (the k-th builtin_glue registration creates function k): called at
+   most once, counting calls by the installation routine and the call at registration time *)
+Theorem C17_at_most_once_builtin :
+  forall w scanned ls f, nB f (log (run src_cfg w ls (init w scanned))) <= 1.
+Proof. exact (fun w scanned ls f => @at_most_once_B w scanned ls f eq_refl). Qed.
+Print Assumptions C17_at_most_once_builtin.
+
+(* a glue function that raises BaseException: the exception escapes from extract (outside the
+   property) but, in every state satisfying the invariant (i.e. every reachable state, under any
+   interleaving), the step releases glue_lock, leaves the cache and the pending table untouched
+   (so the next extraction rescans), changes no other thread, and re-establishes the invariant.
+   C17_cache_invariant, C17_timely, C17_timely_builtin, C17_never_both, C17_at_most_once* carry no
+   "no BaseException" hypothesis: they hold for the other threads whatever escapes. *)
+Theorem C17_base_exception_is_contained :
+  forall w s t nm mf bf cur todo k fs mk,
+    GI w s -> thr s t = PCall nm mf bf cur todo k ->
+    selected w mf bf = Some (fs, mk) -> fbeh fs = BBase ->
+    let s' := step src_cfg w (LThr t) s in
+    thr s' t = PDone false /\ lock s' = None /\ cache s' = cache s /\ pend s' = pend s
+    /\ (exists ev, log s' = EvRet t false :: ev :: log s /\ is_call ev = true)
+    /\ (forall t', t' <> t -> thr s' t' = thr s t')
+    /\ GI w s'.
+Proof. exact (fun w s t nm mf bf cur todo k fs mk => @base_escapes w s t nm mf bf cur todo k fs mk eq_refl eq_refl). Qed.
+Print Assumptions C17_base_exception_is_contained.
+
+(* candidate finding C17-G2 (signature C17G2_builtin_registered_after_module_glue_ran: the
+   built-in runs at registration for a module whose own glue has already run) is outside the
+   property's space -- registration happens when stackscope is imported, before any extraction.
+   In that space (g_late = false, the hypothesis of C17_never_both) it cannot occur: *)
+Corollary C17_G2_cannot_occur :
+  forall w scanned ls n o,
+    let s := run src_cfg w ls (init w scanned) in
+    g_late s = false ->
+    ~ (exists f d, In (EvImm f n o) (log s) /\ In (EvCallM o n d) (log s)).
+Proof. exact (fun w scanned ls n o => @g2_cannot_occur w scanned ls n o eq_refl). Qed.
+Print Assumptions C17_G2_cannot_occur.
+
+(* Remaining gap (stated, not proved): liveness-style "the scanning thread completes" is proved for
+   the thread running on its own (C17_failure_scan_completes); under interleaving no other thread
+   can enter the locked region (C17_cache_invariant, gi_L1), and the safety consequences --
+   timeliness, cache soundness -- are the theorems above. *)
